@@ -42,7 +42,8 @@ pub enum Ctr {
 #[derive(Debug, Clone, Copy)]
 pub enum Op {
     Send,
-    Recv { base: Base, offset_ms: i64, counter: Ctr, same_node: bool, node: u8 },
+    /// `raw_frac`: the remote stamp arrives as a raw 64-bit word whose fraction byte is 250..=255 (no clock issues such a stamp, a peer can send one)
+    Recv { base: Base, offset_ms: i64, counter: Ctr, same_node: bool, node: u8, raw_frac: Option<u8> },
 }
 
 #[derive(Debug, Clone)]
@@ -78,7 +79,10 @@ fn gen_step(src: &mut Src) -> (WallMove, Op) {
             1 => Ctr::ClockPlus(*src.pick(&[0i32, 1, -1, 2, 5])),
             _ => Ctr::Abs(*src.pick(&[1u16, 65_533, 65_534, 65_535])),
         };
-        Op::Recv { base, offset_ms, counter, same_node: src.chance(1, 12), node: *src.pick(&[0u8, 1, 2, 254, 255]) }
+        let same_node = src.chance(1, 12);
+        let node = *src.pick(&[0u8, 1, 2, 254, 255]);
+        let raw_frac = if src.chance(1, 10) { Some(250 + src.below(6) as u8) } else { None };
+        Op::Recv { base, offset_ms, counter, same_node, node, raw_frac }
     } else {
         Op::Send
     };
@@ -97,7 +101,7 @@ impl Prop for C09 {
     }
 
     fn width(&self) -> usize {
-        8 + 60 * 8
+        8 + 60 * 10
     }
 
     fn gen(&self, src: &mut Src) -> Case {
@@ -127,7 +131,7 @@ impl Prop for C09 {
     fn rule(&self) -> &'static str {
         "1-60 calls send | recv(remote) on one HLCTimestamp with an injected wall clock (hook H-clock) that before \
          each call stalls, advances, jumps backwards (incl. by exactly the drift limit +-4 ms) or is placed so the \
-         clock sits exactly around the drift limit ahead; remote stamps relative to wall / clock / wall+limit with \
+         clock sits exactly around the drift limit ahead; remote stamps relative to wall / clock / wall+limit (one in ten as a raw word whose fraction byte is 250..255) with \
          offsets of +-4 ms, counters 0, clock counter +-1, 65534, 65535, same or other node id; oracle after every \
          call: Ok => clock strictly greater than everything issued or accepted before (and than the accepted \
          remote), node id kept, clock time - wall <= 4100 s, issued stamp == clock; Err => clock bit-identical; \
@@ -156,6 +160,7 @@ fn run_inner(case: &Case, wall: &Rc<Cell<u64>>) -> Outcome {
     // greatest stamp issued or accepted so far
     let mut high: HLCTimestamp = clock;
     let mut high_is_initial = true;
+    let mut raw_fraction = false;
     let (mut stalled_send, mut back_jump, mut errors, mut accepted, mut drift_refused, mut overflow) =
         (false, false, 0u32, 0u32, false, false);
 
@@ -221,7 +226,7 @@ fn run_inner(case: &Case, wall: &Rc<Cell<u64>>) -> Outcome {
                     },
                 }
             },
-            Op::Recv { base, offset_ms, counter, same_node, node } => {
+            Op::Recv { base, offset_ms, counter, same_node, node, raw_frac } => {
                 let t_ms = match base {
                     Base::Wall => w + offset_ms,
                     Base::Clock => clock_ms + offset_ms,
@@ -241,7 +246,15 @@ fn run_inner(case: &Case, wall: &Rc<Cell<u64>>) -> Outcome {
                 } else {
                     *node
                 };
-                let remote = HLCTimestamp::new(Duration::from_millis(t_ms), c, rnode);
+                let (remote, t_ms) = match raw_frac {
+                    None => (HLCTimestamp::new(Duration::from_millis(t_ms), c, rnode), t_ms),
+                    Some(f) => {
+                        // (since the seeded change `C09p`) fraction bytes 250..=255 denote 1.000 - 1.020 s after the stamp's second
+                        let secs = t_ms / 1000;
+                        raw_fraction = true;
+                        (HLCTimestamp::from_u64((secs << 32) | ((*f as u64) << 24) | ((c as u64) << 8) | rnode as u64), secs * 1000 + *f as u64 * 4)
+                    },
+                };
                 let res = clock.recv(&remote);
                 match res {
                     Ok(_) => {
@@ -296,6 +309,9 @@ fn run_inner(case: &Case, wall: &Rc<Cell<u64>>) -> Outcome {
     }
 
     let mut labels = vec![];
+    if raw_fraction {
+        labels.push("remote_with_fraction_byte_250..255");
+    }
     if stalled_send {
         labels.push("stalled_clock_send");
     }
